@@ -173,6 +173,8 @@ def check(ctx, rep):
         ok = isinstance(v, ast.Call) and norm(v.func) == 'string_space.store' and len(v.args) == 1 and 'self.view(length, address)' in norm(v.args[0]) and not flc.facts(r)
         rep.ob('commons.strings-copied-wherever-they-live', 'copy_to: %s' % short(r, 60), ok,
                'a string that is not copied keeps its old pointer: after CHAIN it reads bytes of the new program (literal) or a closed file buffer (FIELD)', ctx.where(r))
+    _rebuild_takes_over_the_pointer(ctx, rep)
+    _function_pointers_are_not_strings(ctx, rep)
     pc = ctx.fn(MEMORY + ':DataSegment.preserve_commons')
     ys = [n for n in own_nodes(pc) if isinstance(n, ast.Expr) and isinstance(n.value, ast.Yield)]
     rep.ob('commons.single-yield', 'preserve_commons yields once', len(ys) == 1, '', ctx.where(pc))
@@ -202,6 +204,72 @@ def check(ctx, rep):
     rep.ob('commons.gather-scans-whole-program', 'gather_commons scans from position 0 for every COMMON token',
            'self._program_code.seek(0)' in [norm(s) for s in gc.body] and any(isinstance(n, ast.While) and norm(n.test) == 'self._program_code.skip_to_token(tk.COMMON)' for n in gc.body),
            '', ctx.where(gc))
+
+
+def _first_char_tested(test, var):
+    for n in ast.walk(test):
+        if isinstance(n, ast.Subscript) and norm(n.value) == var:
+            sl = n.slice
+            if isinstance(sl, ast.Constant) and sl.value == 0:
+                return True
+            if isinstance(sl, ast.Slice) and (sl.lower is None or (isinstance(sl.lower, ast.Constant) and sl.lower.value == 0)) \
+                    and isinstance(sl.upper, ast.Constant) and sl.upper.value == 1:
+                return True
+    return False
+
+
+def _function_pointers_are_not_strings(ctx, rep):
+    """DEF FN keeps the code address of a function among the scalars, under the function's name with its first
+    character shifted by 128 (UserFunctionManager.define).  With ALL every scalar is preserved; the ones that are
+    read as string pointers (to_pointer) must be picked by more than the `$` sigil, or FNA$'s address is
+    dereferenced as (length, address) and ValueError leaves the interpreter."""
+    pc = ctx.fn(MEMORY + ':DataSegment.preserve_commons')
+    df = ctx.fn('pcbasic/basic/parser/userfunctions.py:UserFunctionManager.define')
+    shifted = [c for c in own_nodes(df) if isinstance(c, ast.Call) and norm(c.func) == 'int2byte' and c.args and '128' in norm(c.args[0])]
+    stored = [c for c in own_nodes(df) if isinstance(c, ast.Call) and norm(c.func) == 'self._memory.scalars.set' and c.args and norm(c.args[0]) == 'memory_name']
+    rep.floor('commons.function-pointers-are-not-strings', len(shifted) + len(stored), 2, 'define(): the shifted name and the scalar that holds the pointer')
+    comps = [c for c in own_nodes(pc) if isinstance(c, (ast.DictComp, ast.ListComp, ast.GeneratorExp, ast.SetComp))
+             and any(isinstance(x, ast.Call) and isinstance(x.func, ast.Attribute) and x.func.attr == 'to_pointer' for x in ast.walk(c))
+             and 'common_scalars' in norm(c.generators[0].iter)]
+    rep.floor('commons.function-pointers-are-not-strings', len(comps), 1, 'comprehensions that read scalars as string pointers')
+    for c in comps:
+        g = c.generators[0]
+        var = norm(g.target.elts[0]) if isinstance(g.target, ast.Tuple) else norm(g.target)
+        ok = any(_first_char_tested(t, var) for t in g.ifs)
+        rep.ob('commons.function-pointers-are-not-strings', 'preserve_commons: %s' % short(c, 70), ok,
+               'every scalar named ...$ is read as a string pointer: the code address stored for DEF FNA$ is dereferenced (ValueError) by CHAIN ...,ALL', ctx.where(c))
+
+
+def _rebuild_takes_over_the_pointer(ctx, rep):
+    """The preserved strings come back with the allocation pointer of the space they were copied into; anything in
+    rebuild() that writes `current` after that (clear() resets it to the top of memory) makes the chained program
+    allocate its next string on top of the COMMON strings."""
+    STR = 'pcbasic/basic/values/strings.py'
+    rb = ctx.fn(STR + ':StringSpace.rebuild')
+    par = [a.arg for a in rb.args.args if a.arg != 'self']
+    cls = rb._parent
+
+    def writes_current(fn):
+        for n in own_nodes(fn):
+            tg = n.targets if isinstance(n, ast.Assign) else [n.target] if isinstance(n, ast.AugAssign) else []
+            if any(norm(t) == 'self.current' for t in tg):
+                return True
+        return False
+    resetters = sorted(f.name for f in cls.body if isinstance(f, ast.FunctionDef) and f is not rb and writes_current(f))
+    rep.floor('commons.rebuild-pointer-taken-over-last', len(resetters), 2, 'StringSpace methods that move the allocation pointer')
+    takes = [i for i, st in enumerate(rb.body) if isinstance(st, ast.Assign) and norm(st.targets[0]) == 'self.current'
+             and par and norm(st.value) == par[0] + '.current']
+    late = []
+    if takes:
+        for st in rb.body[takes[-1] + 1:]:
+            for c in ast.walk(st):
+                if isinstance(c, ast.Call) and isinstance(c.func, ast.Attribute) and norm(c.func.value) == 'self' and c.func.attr in resetters:
+                    late.append(short(c, 40))
+                tg = c.targets if isinstance(c, ast.Assign) else [c.target] if isinstance(c, ast.AugAssign) else []
+                if any(norm(t) == 'self.current' for t in tg):
+                    late.append(short(c, 40))
+    rep.ob('commons.rebuild-pointer-taken-over-last', 'rebuild(): the allocation pointer of the stored copy is taken over, and nothing moves it afterwards',
+           len(takes) >= 1 and not late, 'moved again by: %s' % late if takes else 'the pointer of the stored copy is not taken over unconditionally', ctx.where(rb))
 
 
 def variants(ctx):
@@ -234,6 +302,13 @@ def variants(ctx):
         Va('common-literal-strings-not-copied', 'break', 'pcbasic/basic/values/strings.py',
            lambda tree: mu.insert_first(mu.find_def(tree, 'StringSpace.copy_to'), "if length == 0 or address < self._memory.var_start():\n    return length, address"),
            expect='commons.strings-copied-wherever-they-live'),
+        Va('function-pointer-read-as-string', 'break', MEMORY,
+           in_fn('DataSegment.preserve_commons', lambda fn: mu.replace_expr(fn, mu.text_is("name[-1:] == values.STR and name[:1] < b'\\x80'"), 'name[-1:] == values.STR')),
+           expect='commons.function-pointers-are-not-strings'),
+        Va('rebuild-clears-after-taking-pointer', 'break', 'pcbasic/basic/values/strings.py',
+           in_fn('StringSpace.rebuild', _pointer_first), expect='commons.rebuild-pointer-taken-over-last'),
+        Va('rebuild-update-before-pointer', 'neutral', 'pcbasic/basic/values/strings.py',
+           in_fn('StringSpace.rebuild', lambda fn: (fn.body.append(fn.body.pop(-2)), True)[1])),
         Va('commons-restored-before-strings', 'break', MEMORY, in_fn('DataSegment.preserve_commons', _rebuild_last), expect='commons.strings-rebuilt'),
         Va('stacks-reset-to-copies', 'break', INTERP,
            in_fn('Interpreter._clear_stacks', lambda fn: mu.replace_stmt(fn, mu.text_is('self.gosub_stack = []'), 'self.gosub_stack = list(self.gosub_stack)')),
@@ -247,6 +322,12 @@ def _hoist_clear(fn):
     c = [s for s in w.body if isinstance(s, ast.Expr) and 'self._clear_all' in norm(s)][0]
     w.body.remove(c)
     fn.body.insert(fn.body.index(w), c)
+    return True
+
+
+def _pointer_first(fn):
+    i = [k for k, st in enumerate(fn.body) if norm(st) == 'self.current = stringspace.current'][0]
+    fn.body.insert(1 if isinstance(fn.body[0], ast.Expr) and isinstance(fn.body[0].value, ast.Constant) else 0, fn.body.pop(i))
     return True
 
 
